@@ -3,6 +3,7 @@ package rules
 import (
 	"fmt"
 	"go/token"
+	"go/types"
 	"regexp"
 	"strings"
 
@@ -289,4 +290,183 @@ func checkImmediateExtension(c *core.Ctx, handlers []handlerRef) {
 			}
 		}
 	}
+}
+
+// R03.35: bits 63..32 of a 32-bit source do not influence the instruction.
+//
+// ReadOperand returns 64 bits. For a 32-bit source they are zero when the operand is a
+// register or a literal, but an inline integer constant is delivered as uint64(int64):
+// -1 arrives as 0xFFFF_FFFF_FFFF_FFFF. The upper half is harmless as long as the value
+// only passes through operations whose low 32 result bits depend on the low 32 operand
+// bits (+, -, *, &, |, ^, <<) and is then written to a 32-bit destination (WriteOperand
+// truncates). It is not harmless in a comparison, a right shift, a division, a
+// conversion to floating point or an index.
+func checkHighHalfInert(c *core.Ctx, handlers []handlerRef) {
+	st := c.Rule("R03.35", "in the handlers dispatched only for 32-bit integer / bit instructions (every type token of every mnemonic is 16, 24 or 32 bits wide), a value read with ReadOperand from Src0 / Src1 / Src2 is reduced to 32 bits (a conversion to a type of at most 32 bits, or a mask of at most 32 bits) before it reaches a comparison, a right shift, a division or remainder, a conversion to a wider or floating-point type, or a call other than WriteOperand; the low-bits-closed operations + - * & | ^ << may be applied to the raw value", 150)
+	typ := regexp.MustCompile(`_([iubf])(8|16|24|32|64)\b`)
+	seen := map[*ssa.Function]bool{}
+	for _, h := range handlers {
+		if len(h.insts) == 0 {
+			continue
+		}
+		all32 := true
+		for _, n := range h.insts {
+			ms := typ.FindAllStringSubmatch(baseMnemonic(n), -1)
+			if len(ms) == 0 {
+				all32 = false
+			}
+			for _, m := range ms {
+				if m[2] == "64" || m[1] == "f" {
+					all32 = false
+				}
+			}
+			if strings.Contains(n, "saveexec") || strings.Contains(n, "cndmask") || strings.Contains(n, "readlane") || strings.Contains(n, "writelane") || strings.Contains(n, "mad_u64") || strings.Contains(n, "mad_i64") {
+				all32 = false
+			}
+		}
+		if !all32 {
+			continue
+		}
+		fn := c.SSAFunc(h.alu.pkg, h.alu.typ+"."+h.name)
+		if fn == nil || seen[fn] {
+			continue
+		}
+		seen[fn] = true
+		carryIn := false
+		for _, n := range h.insts {
+			if regexp.MustCompile(`^v_(addc|subb|subbrev)(_co)?_u32`).MatchString(baseMnemonic(n)) {
+				carryIn = true
+			}
+		}
+		for _, b := range fn.Blocks {
+			for _, in := range b.Instrs {
+				call, ok := in.(*ssa.Call)
+				if !ok || !(isOperandRead(call, "Src0") || isOperandRead(call, "Src1") || isOperandRead(call, "Src2")) {
+					continue
+				}
+				if isOperandRead(call, "Src2") && carryIn {
+					continue // the carry-in of v_addc / v_subb / v_subbrev is a 64-bit lane mask
+				}
+				st.Instances++
+				c.MarkAnalysed(fn)
+				// forward slice through low-bits-closed operations
+				bad := ""
+				var badPos ssa.Instruction
+				visited := map[ssa.Value]bool{}
+				var walk func(v ssa.Value, d int)
+				walk = func(v ssa.Value, d int) {
+					if visited[v] || d > 12 || v.Referrers() == nil || bad != "" {
+						return
+					}
+					visited[v] = true
+					for _, r := range *v.Referrers() {
+						switch x := r.(type) {
+						case *ssa.DebugRef:
+						case *ssa.Convert:
+							w, _, okW := typeWidth(x.Type())
+							if okW && w <= 32 {
+								continue // reduced
+							}
+							if bt, isB := x.Type().Underlying().(*types.Basic); isB && bt.Info()&types.IsFloat != 0 {
+								bad, badPos = "a conversion to floating point", x
+								return
+							}
+							walk(x, d+1) // same width reinterpretation (int64 <-> uint64)
+						case *ssa.BinOp:
+							switch x.Op {
+							case token.AND:
+								other := x.Y
+								if other == v {
+									other = x.X
+								}
+								if k, isK := core.ConstInt(other); isK && k >= 0 && k <= 0xffffffff {
+									continue // reduced by the mask
+								}
+								walk(x, d+1)
+							case token.ADD, token.SUB, token.MUL, token.OR, token.XOR:
+								walk(x, d+1)
+							case token.SHL:
+								if x.X == v {
+									walk(x, d+1)
+								} else {
+									bad, badPos = "a shift amount", x
+								}
+							case token.SHR:
+								if x.X == v {
+									bad, badPos = "a right shift", x
+								} else {
+									bad, badPos = "a shift amount", x
+								}
+							case token.QUO, token.REM:
+								bad, badPos = "a division", x
+							case token.EQL, token.NEQ, token.LSS, token.LEQ, token.GTR, token.GEQ:
+								// x & y and x | y of sign- or zero-extended 32-bit values are zero as
+								// 64-bit values exactly when their low halves are
+								other := x.Y
+								if other == v {
+									other = x.X
+								}
+								if k, isK := core.ConstInt(other); isK && k == 0 && (x.Op == token.EQL || x.Op == token.NEQ) && onlyAndOr(v, 0) {
+									continue
+								}
+								bad, badPos = "a comparison", x
+							default:
+								walk(x, d+1)
+							}
+							if bad != "" {
+								return
+							}
+						case *ssa.Phi:
+							walk(x, d+1)
+						case *ssa.Call:
+							if x.Call.IsInvoke() && x.Call.Method.Name() == "WriteOperand" {
+								continue // the register store truncates to the destination width
+							}
+							if cal := x.Call.StaticCallee(); cal != nil && strings.HasPrefix(cal.Name(), "ExtractBitsFromU") && len(x.Call.Args) == 3 {
+								if hi, isK := core.ConstInt(x.Call.Args[2]); isK && hi <= 31 {
+									continue // a field inside the low dword
+								}
+							}
+							bad, badPos = "a call of "+calleeName(x), x
+							return
+						case *ssa.Store, *ssa.MapUpdate, *ssa.Return, *ssa.IndexAddr, *ssa.Index:
+							bad, badPos = "a store / index", r
+							return
+						}
+					}
+				}
+				walk(call, 0)
+				st.Ob(bad == "")
+				if bad != "" {
+					c.ReportAt("R03.35", fn, badPos.Pos(), "raw-64-bit-source:"+strings.ReplaceAll(bad, " ", "-"), fmt.Sprintf("%s (%s) lets the raw 64-bit value of a 32-bit source reach %s: an inline constant such as -1 is delivered as 0xFFFFFFFFFFFFFFFF, so the upper half takes part in the result (v_lshrrev_b32 v0, 4, -16 shifts ones in; v_cmp_eq_u32 -1, v0 is false for v0 = 0xFFFFFFFF)", core.FuncName(fn), strings.Join(h.insts, ", "), bad))
+				}
+			}
+		}
+	}
+}
+
+func calleeName(call *ssa.Call) string {
+	if call.Call.IsInvoke() {
+		return call.Call.Method.Name()
+	}
+	if cal := call.Call.StaticCallee(); cal != nil {
+		return cal.Name()
+	}
+	return "a function value"
+}
+
+// onlyAndOr: v is built from ReadOperand results by & and | alone.
+func onlyAndOr(v ssa.Value, d int) bool {
+	if d > 6 {
+		return false
+	}
+	switch x := v.(type) {
+	case *ssa.Call:
+		return x.Call.IsInvoke() && x.Call.Method.Name() == "ReadOperand"
+	case *ssa.BinOp:
+		if x.Op == token.AND || x.Op == token.OR {
+			return onlyAndOr(x.X, d+1) && onlyAndOr(x.Y, d+1)
+		}
+	}
+	return false
 }
